@@ -12,6 +12,36 @@ def main():
     s = open(p).read()
     head = s.split(MARK)[0].rstrip('\n') + '\n\n' + MARK + '\n\n'
     out = []
+    # status per property
+    import sys
+    sys.path.insert(0, os.path.join(V, 'tools'))
+    import vlib
+    out.append('## 12. Status per property (generated from manifest.d/*.json and coq/Properties_Cxx.v)\n')
+    out.append('For each property: the deciding technique, the theorems of `Properties_Cxx.v` (names ending in `_partial` '
+               'carry the full statement in a comment and say what is missing; `_refuted` theorems exhibit a witness), '
+               'and the claim as registered in MANIFEST.json.\n')
+    for l in open(os.path.join(V, 'properties.jsonl')):
+        if not l.strip():
+            continue
+        pr = json.loads(l)
+        pid = pr['id']
+        f = os.path.join(V, 'manifest.d', pid + '.json')
+        out.append('### %s %s\n' % (pid, pr['title']))
+        if not os.path.exists(f):
+            out.append('not claimed.\n')
+            continue
+        m = json.load(open(f))
+        try:
+            thms = vlib.theorems_of('Properties_%s.v' % pid)
+        except Exception:
+            thms = []
+        part = [t for t in thms if t.endswith('_partial')]
+        ref = [t for t in thms if t.endswith('_refuted')]
+        out.append('* technique: %s' % m.get('technique', ''))
+        out.append('* theorems (%d; %d partial, %d refutation witnesses): %s' % (len(thms), len(part), len(ref), ', '.join('`%s`' % t for t in thms)))
+        out.append('* Coq files: %s' % ', '.join('`%s`' % x for x in vlib.coq_deps('Properties_%s.v' % pid)))
+        out.append('* claim: %s' % m.get('text', ''))
+        out.append('* trusted / assumed: %s\n' % m.get('note', ''))
     # seeded changes
     out.append('## 13. Seeded breaking changes and which check catches them (generated)\n')
     out.append('Each change was written by a fresh sub-agent that saw only the property text and a scratch worktree, '
